@@ -123,8 +123,12 @@ impl TransactionTracker {
     }
 
     pub(crate) fn start_write_transaction(&self) -> TransactionId {
+        #[cfg(redb_verif)]
+        crate::verif::pause("T.start_write");
         let mut state = self.state.lock().unwrap();
         while state.live_write_transaction.is_some() {
+            #[cfg(redb_verif)]
+            crate::verif::pause("T.start_write.wait!");
             state = self.live_write_transaction_available.wait(state).unwrap();
         }
         assert!(state.live_write_transaction.is_none());
@@ -142,6 +146,8 @@ impl TransactionTracker {
         &self,
         id: TransactionId,
     ) -> Option<Arc<TransactionalMemory>> {
+        #[cfg(redb_verif)]
+        crate::verif::pause("T.end_write");
         let mut state = self.state.lock().unwrap();
         assert_eq!(state.live_write_transaction.unwrap(), id);
         state.live_write_transaction = None;
@@ -157,6 +163,8 @@ impl TransactionTracker {
         &self,
         mem: &Arc<TransactionalMemory>,
     ) -> bool {
+        #[cfg(redb_verif)]
+        crate::verif::pause("T.defer_close");
         let mut state = self.state.lock().unwrap();
         if state.live_write_transaction.is_some() {
             state.deferred_close = Some(mem.clone());
@@ -167,6 +175,8 @@ impl TransactionTracker {
     }
 
     pub(crate) fn clear_pending_non_durable_commits(&self) {
+        #[cfg(redb_verif)]
+        crate::verif::pause("T.clear_pending_nd");
         let mut state = self.state.lock().unwrap();
         let ids = mem::take(&mut state.pending_non_durable_commits);
         for (_, durable_ancestor) in ids {
@@ -214,6 +224,8 @@ impl TransactionTracker {
         durable_ancestor: TransactionId,
         has_unprocessed_freed_pages: bool,
     ) {
+        #[cfg(redb_verif)]
+        crate::verif::pause("T.register_nd");
         let mut state = self.state.lock().unwrap();
         state
             .live_read_transactions
@@ -238,6 +250,8 @@ impl TransactionTracker {
         id: TransactionId,
         live_write_transaction: TransactionId,
     ) {
+        #[cfg(redb_verif)]
+        crate::verif::pause("T.reserve_id");
         let mut state = self.state.lock().unwrap();
         assert_eq!(state.live_write_transaction, Some(live_write_transaction));
         assert_eq!(id, state.next_transaction_id.next());
@@ -283,6 +297,8 @@ impl TransactionTracker {
         &self,
         mem: &TransactionalMemory,
     ) -> Result<TransactionId> {
+        #[cfg(redb_verif)]
+        crate::verif::pause("T.register_read");
         let mut state = self.state.lock()?;
         let id = mem.get_last_committed_transaction_id()?;
         state
@@ -295,6 +311,8 @@ impl TransactionTracker {
     }
 
     pub(crate) fn deallocate_read_transaction(&self, id: TransactionId) {
+        #[cfg(redb_verif)]
+        crate::verif::pause("T.dealloc_read");
         let mut state = self.state.lock().unwrap();
         let ref_count = state.live_read_transactions.get_mut(&id).unwrap();
         *ref_count -= 1;
@@ -304,6 +322,8 @@ impl TransactionTracker {
     }
 
     pub(crate) fn any_savepoint_exists(&self) -> bool {
+        #[cfg(redb_verif)]
+        crate::verif::pause("T.any_savepoint");
         !self.state.lock().unwrap().valid_savepoints.is_empty()
     }
 
@@ -339,6 +359,8 @@ impl TransactionTracker {
     }
 
     pub(crate) fn allocate_savepoint(&self, transaction_id: TransactionId) -> SavepointId {
+        #[cfg(redb_verif)]
+        crate::verif::pause("T.alloc_savepoint");
         let mut state = self.state.lock().unwrap();
         let id = state.next_savepoint_id.next();
         state.next_savepoint_id = id;
@@ -348,6 +370,8 @@ impl TransactionTracker {
 
     // Deallocates the given savepoint and its matching reference count on the transcation
     pub(crate) fn deallocate_savepoint(&self, savepoint: SavepointId, transaction: TransactionId) {
+        #[cfg(redb_verif)]
+        crate::verif::pause("T.dealloc_savepoint");
         {
             let mut state = self.state.lock().unwrap();
             state.valid_savepoints.remove(&savepoint);
@@ -385,6 +409,8 @@ impl TransactionTracker {
     // Savepoints that have already been removed (for example, by `deallocate_savepoint` earlier
     // in the same transaction) are silently skipped.
     pub(crate) fn invalidate_savepoints(&self, savepoints: impl IntoIterator<Item = SavepointId>) {
+        #[cfg(redb_verif)]
+        crate::verif::pause("T.invalidate_savepoints");
         let mut state = self.state.lock().unwrap();
         for id in savepoints {
             state.valid_savepoints.remove(&id);
@@ -399,6 +425,8 @@ impl TransactionTracker {
         &self,
         exclude: &BTreeSet<SavepointId>,
     ) -> Option<(SavepointId, TransactionId)> {
+        #[cfg(redb_verif)]
+        crate::verif::pause("T.oldest_savepoint");
         self.state
             .lock()
             .unwrap()
@@ -409,6 +437,8 @@ impl TransactionTracker {
     }
 
     pub(crate) fn oldest_live_read_transaction(&self) -> Option<TransactionId> {
+        #[cfg(redb_verif)]
+        crate::verif::pause("T.oldest_live_read");
         self.state
             .lock()
             .unwrap()
@@ -421,6 +451,8 @@ impl TransactionTracker {
     // Returns the transaction id of the oldest non-durable transaction which has not been processed
     // for freeing, which has live read transactions
     pub(crate) fn oldest_live_read_nondurable_transaction(&self) -> Option<TransactionId> {
+        #[cfg(redb_verif)]
+        crate::verif::pause("T.oldest_live_read_nd");
         let state = self.state.lock().unwrap();
         for id in state.live_read_transactions.keys() {
             if state.pending_non_durable_commits.contains_key(id) {
@@ -482,5 +514,15 @@ impl TransactionTracker {
                 .collect(),
             deferred_close: state.deferred_close.is_some(),
         }
+    }
+}
+
+// Verification hook H4 (add-only): wake every begin_write() waiter without changing any state,
+// i.e. a spurious wakeup, which the Condvar contract allows at any time
+#[cfg(redb_verif)]
+impl TransactionTracker {
+    pub(crate) fn verif_spurious_wake(&self) {
+        let _state = self.state.lock().unwrap();
+        self.live_write_transaction_available.notify_all();
     }
 }
